@@ -493,6 +493,7 @@ class Engine:
         self.n_paths = self.n_completed = self.n_decisions = 0
         self.reached, self.proved, self.violated = {}, {}, {}
         self.unknown, self.violations, self.unsupported, self.budget = [], [], [], []
+        self.timeouts = []
         self.inputs, self.uf_apps = {}, {}
         self.slow = []
         self.index_concretize_limit = index_concretize_limit
@@ -891,6 +892,14 @@ class Engine:
                 self.unsupported.append(str(e)[:120])
             except Budget:
                 self.budget.append(len(self.decisions))
+                _alarm(0)
+                if len(self.timeouts) < 2:      # candidate non-termination: keep the inputs for a concrete replay under a time limit
+                    try:
+                        if self._check() == "sat":
+                            ins, ufs = self._model_inputs(self.solver.model())
+                            self.timeouts.append({"inputs": ins, "uf": ufs, "decisions": len(self.decisions)})
+                    except Exception:  # noqa: BLE001
+                        pass
             except RecursionError:
                 self.unsupported.append("RecursionError")
             except z3.Z3Exception as e:     # harness/engine misuse of a term, not library behaviour
@@ -934,7 +943,7 @@ class Engine:
                     unsat=self.n_unsat, sat=self.n_sat, unknown_q=self.n_unknown_q,
                     solver_s=round(self.solver_time, 2), wall_s=round(self.wall, 2), reached=self.reached,
                     proved=self.proved, violated=self.violated, unknown=self.unknown[:20], violations=self.violations,
-                    unsupported=self.unsupported[:10], budget=self.budget[:10], pending=len(self.pending),
+                    unsupported=self.unsupported[:10], budget=self.budget[:10], timeouts=self.timeouts, pending=len(self.pending),
                     timed_out=self.timed_out, slow=self.slow[:5], witnesses=self.witnesses, samples=self.samples,
                     functions=sorted(self.functions))
 
